@@ -92,6 +92,7 @@ type RunCfg struct {
 	// LinkedRoot: the pipestance is reached through a symlinked parent directory
 	// (<root>/lnk -> vol); CanonicalPaths: stages may report the physical path
 	// (pwd -P) of their output files
+	SubDirs        bool // stages may put outputs into a sub-directory of files/ next to unreferenced junk
 	LinkedRoot     bool
 	CanonicalPaths bool
 	AllSlow        bool   // every job computes for ten simulated minutes
@@ -159,17 +160,17 @@ type Run struct {
 
 // FileRec is a file written by stage code.
 type FileRec struct {
-	Path    string
-	Content string
-	Job     *JobRec
-	Seq     int
-	Extra   bool   // not named by any output
-	InDir   string // the directory-valued output this file belongs to
-	Logical string // the path the stage reported, when it differs (through a symlinked directory)
-	Tmp     bool   // in the job's temporary directory
+	Path      string
+	Content   string
+	Job       *JobRec
+	Seq       int
+	Extra     bool   // not named by any output
+	InDir     string // the directory-valued output this file belongs to
+	Logical   string // the path the stage reported, when it differs (through a symlinked directory)
+	Tmp       bool   // in the job's temporary directory
 	Canonical bool   // the stage reported the physical path (symlinked parent resolved)
-	Kind    string // "" regular file; "missing" (named, never created); "symlink"; "outside" (a path outside the pipestance)
-	Target  string // for symlinks: the file finally pointed at
+	Kind      string // "" regular file; "missing" (named, never created); "symlink"; "outside" (a path outside the pipestance)
+	Target    string // for symlinks: the file finally pointed at
 }
 
 // ClusterJob is a job handed to the simulated cluster scheduler (qsub).
